@@ -54,6 +54,8 @@ def parseOp (line : String) : Option Op :=
   | ["call", a, b, c, d, e] => do some (.call (← n? a) (← n? b) (← n? c) (← n? d) (← n? e))
   | ["rmcall", a] => do some (.rmcall (← n? a))
   | ["sweep"] => some .sweep
+  | ["rmcalln", a] => do some (.rmcalln (← n? a))
+  | ["rmall", a] => do some (.rmall (← n? a))
   | ["sent", a, b, c, d] => do some (.sent (← n? a) (← n? b) (← n? c) (← n? d))
   | ["rmsent", a] => do some (.rmsent (← n? a))
   | ["err", a, b] => do some (.err (← n? a) (← n? b))
